@@ -43,6 +43,16 @@ def gen_string(cls, rng, n):
         return rng.choice(["100%% sure %s", "50%%%% off %d items", "%s%v%d%q %%", "load 99.9%% (%x)", "a%20b%2Fc %!s(MISSING)"]) + " " + tok
     if cls == "priorCiphertext":
         return PRIOR[n % len(PRIOR)] if PRIOR else "bm8gcHJpb3IgY2lwaGVydGV4dA=="
+    if cls == "blockAligned":
+        # byte length an exact multiple of the cipher's block size, ending in bytes that padding schemes use as markers
+        tails = ["\u00c0", "\u4e00", "\u2000", "\u0080", "\x00", "\x00\x00\x00", "\x01", "\x02\x02", "\x10" * 16, "\u00c0\x00", "\x80".encode("latin-1").decode("latin-1")]
+        tail = tails[n % len(tails)]
+        target = [16, 32, 48, 64, 256][(n // len(tails)) % 5]
+        while len(tok.encode()) + len(tail.encode("utf-8")) > target:
+            target += 16
+        return tok + "x" * (target - len(tok.encode()) - len(tail.encode("utf-8"))) + tail
+    if cls == "ipLike":
+        return ["10.1.%d.%d" % (n % 250, n % 199), "192.168.%d.7:%d" % (n % 250, 1024 + n), "fe80::%x" % (n + 1), "[2001:db8::%x]:27017" % (n + 1), "::1", "255.255.255.255:65535"][n % 6]
     if cls == "date":
         return "20%02d-0%d-1%dT0%d:34:56.%03dZ" % (n % 90 + 10, n % 9 + 1, n % 9, n % 9, n % 1000)
     if cls == "oid":
@@ -269,6 +279,15 @@ def volume(b, v, tier, wd, key):
     return len(meta)
 
 
+def snap_path(p):
+    """What is at a path: ('absent',) / ('dir', listing) / ('file', bytes, mode)."""
+    if not os.path.lexists(p):
+        return ("absent",)
+    if os.path.isdir(p):
+        return ("dir", tuple(sorted(os.listdir(p))))
+    return ("file", open(p, "rb").read(), os.stat(p).st_mode & 0o777)
+
+
 def run(tier):
     v = common.Verdict(PID, tier, "fault_enumeration")
     b = common.build()
@@ -318,7 +337,7 @@ def run(tier):
     open(inp, "w", encoding="utf-8").write(data)
     outp = os.path.join(wd, "out.log")
     # (--replacement is documented as ignored with --encrypt: it is given here, a value the placeholders never take)
-    p = common.run_cli(b, ["redact", inp, "-o", outp, "--encrypt", "-q", k1, "--replacement", "<hidden %d>"], cwd=wd)
+    p = common.run_cli(b, ["redact", inp, "-o", outp, "--encrypt", "-q", k1, "--replacement", "<hidden %d>", "-i"], cwd=wd)
     if p.returncode != 0:
         raise common.Infra("redact --encrypt failed on the generated input: %s" % p.stderr.decode()[:400])
     p2 = common.run_cli(b, ["redact", inp, "-o", os.path.join(wd, "o2.log"), "--encrypt", "-q", k2], cwd=wd)
@@ -352,9 +371,28 @@ def run(tier):
             value = alter(ct, s["alt"], r_)
         except Exception:
             return c, "notbase64", ct, None
-        key = k1 if s["keyrel"] == "same" else k2
-        pr = common.run_cli(b, ["decrypt", "--decryptionKeyFile", key, "--", value], cwd=wd)
-        return c, "ran", ct, (pr.returncode, pr.stdout, pr.stderr, value)
+        # what decrypt finds at --decryptionKeyFile (Crypto.tla KeyRels); a private copy per case so that "only reads" can be observed
+        kd = tempfile.mkdtemp(prefix="dk-", dir=wd)
+        key = os.path.join(kd, "d.key")
+        rel = s["keyrel"]
+        if rel in ("same", "other"):
+            shutil.copy(k1 if rel == "same" else k2, key)
+        elif rel == "sameNL":
+            open(key, "wb").write(open(k1, "rb").read().rstrip(b"\n") + b"\n")
+        elif rel == "empty":
+            open(key, "wb").close()
+        elif rel == "short":
+            open(key, "wb").write(base64.b64encode(os.urandom(32)))
+        elif rel == "nonb64":
+            open(key, "wb").write(b"this is *not* base64 !!" * 4)
+        elif rel == "dir":
+            os.mkdir(key)
+        before = snap_path(key)
+        pr = common.run_cli(b, ["decrypt", "--decryptionKeyFile", key, "--", value], cwd=kd)
+        after = snap_path(key)
+        extra = sorted(x for x in os.listdir(kd) if x != "d.key")
+        shutil.rmtree(kd, ignore_errors=True)
+        return c, "ran", ct, (pr.returncode, pr.stdout, pr.stderr, value, before, after, extra)
 
     n_e2e = 0
     for c, status, ct, res in common.parallel_map(one, cases):
@@ -373,8 +411,11 @@ def run(tier):
         if ct == c["text"] and c["text"] != "":
             v.violation("a string that placeholder mode replaces is emitted in clear with --encrypt (%s)" % sig_pos, rep)
             continue
-        rc, so, se, value = res
+        rc, so, se, value, kbefore, kafter, kextra = res
         n_e2e += 1
+        if kbefore != kafter or kextra:
+            v.violation("the decrypt command changes what is at --decryptionKeyFile (%s key file)" % s["keyrel"],
+                        dict(rep, key_path_before=str(kbefore)[:200], key_path_after=str(kafter)[:200], new_files=kextra))
         v.nontrivial((s["cls"], s["slot"], s["keyrel"], s["alt"]))
         rep.update({"ciphertext": ct[:200], "value_given_to_decrypt": value[:200], "exit": rc, "stdout": so.decode("utf-8", "replace")[-600:], "stderr": se.decode("utf-8", "replace")[:300]})
         marker = b"Raw value: "
@@ -387,7 +428,7 @@ def run(tier):
             if rc != 0 or i < 0 or so[i:] != want:
                 v.violation("decrypt does not give back exactly the original string (%s)" % sig_pos, rep)
         else:
-            what = "another key" if s["keyrel"] != "same" and s["alt"] == "none" else "an altered ciphertext (%s)" % s["alt"]
+            what = ("another key" if s["keyrel"] == "other" else "no usable key file (%s)" % s["keyrel"]) if s["keyrel"] not in ("same", "sameNL") and s["alt"] == "none" else "an altered ciphertext (%s)" % s["alt"]
             if rc == 0:
                 v.violation("decrypt with %s exits 0" % what, rep)
             elif marker in so:
